@@ -65,7 +65,7 @@ def jobs(tier, seed):
             ncase = 300 if ms >= 4 else 600 if ms >= 1.5 else 2000
             nspecial = 200
         else:
-            budget = 90.0 if dup else 180.0
+            budget = 75.0 if dup else 150.0
             ncase = int(min(20000, budget / (1.5 * ms / 1000.0)))
             nspecial = 1100
         est = (ncase + nspecial) * 1.5 * ms / 1000.0      # CPU seconds of the whole pair
@@ -77,9 +77,9 @@ def jobs(tier, seed):
                                       flavour='asan', libs=LIBS, timeout=300 if q else 2400)))
     # ---- ECDSA: cases = signatures (each: 1 RFC 6979 comparison, 2 verifications of the valid signature,
     #      1 arbitrary-hash-length signature, 3 mutated ones); CPU per signature 0.04 / 0.18 / 0.4 s
-    for curve, nsig, nw in (('P256', 900 if q else 30000, 6 if q else 24),
-                            ('P384', 450 if q else 7000, 12 if q else 24),
-                            ('P521', 350 if q else 2500, 20 if q else 20)):
+    for curve, nsig, nw in (('P256', 900 if q else 24000, 6 if q else 24),
+                            ('P384', 450 if q else 5000, 12 if q else 24),
+                            ('P521', 350 if q else 1800, 20 if q else 20)):
         for w in range(nw):
             out.append((30.0 if q else 700.0, Job('ecdsa-%s-%d' % (curve, w), 'h_ec',
                                 ['--mode', 'ecdsa', '--curve', curve, '--cases', nsig, '--seed', seed,
